@@ -802,6 +802,37 @@ MUTANTS += BENIGN_TWINS
 
 MUTANTS = [m for m in MUTANTS if not m.get("skip_if_missing")]
 
+ROUND2_MUTANTS = [
+    dict(id="c01-clamp-count", props=["C01"], rule="W9", names="count",
+         edits=[(MARSHAL, "    parent_path = path[:-1]\n    element_size = 0\n", "    parent_path = path[:-1]\n    count = min(count, 0x400)\n    element_size = 0\n")]),
+    dict(id="c04-get-prologue", props=["C04", "C16"], rule="V4", names="prologue",
+         edits=[(VALUES, "    def get(self, value):\n        for v in self._values:", "    def get(self, value):\n        if not value:\n            return value\n        for v in self._values:")]),
+    dict(id="c04-contains-shortcut", props=["C04"], rule="V4", names="__contains__",
+         edits=[(VALUES, "    def __contains__(self, value):\n        return self.get(value) is not None\n\n    def get", "    def __contains__(self, value):\n        if len(self._values) > 64:\n            return True\n        return self.get(value) is not None\n\n    def get")]),
+    dict(id="c02-encode-assert", props=["C02"], rule="B6", names="to_bytes",
+         edits=[(BINUN, "    # is a primitive\n    return event.value.to_bytes()", "    # is a primitive\n    assert event.value.is_valid()\n    return event.value.to_bytes()")]),
+    dict(id="c03-truthy-limit", props=["C03"], rule="R6", names="truthiness",
+         edits=[(CONSTR, "        if self.size_max is not None and self.size_already + size > self.size_max:", "        if self.size_max and self.size_already + size > self.size_max:")]),
+    dict(id="c17-closed-form-correct", props=["C17"], benign=True,
+         edits=[(VALUES, """                        bits = obj._value & self._mask
+                        mask = self._mask
+                        while mask & 0x1 == 0x0:
+                            bits >>= 1
+                            mask >>= 1
+                        return bits  # TODO ?
+""", """                        return (obj._value & self._mask) >> ((self._mask & -self._mask).bit_length() - 1)
+""")]),
+    dict(id="c13-benign-helper", props=["C13", "C05", "C10"], benign=True,
+         edits=[(MARSHAL, "def is_parameter_encryption(\n    command: Command = None,", "def unread(it, lookahead=None):\n    if lookahead is None:\n        return bytes(it)\n    return bytes(itertools.chain((lookahead,), it))\n\n\ndef is_parameter_encryption(\n    command: Command = None,"),
+                (MARSHAL, "            error.set_bytes_remaining(buffer_iter)\n", "            error.set_bytes_remaining(unread(buffer_iter))\n"),
+                (MARSHAL, "                    bytes_remaining = bytes(itertools.chain((byte,), buffer_iter))\n                    error = InputStreamSuperfluousBytesError(", "                    bytes_remaining = unread(buffer_iter, lookahead=byte)\n                    error = InputStreamSuperfluousBytesError(")]),
+    dict(id="c03-benign-size-remaining-property", props=["C03", "C08", "C13"], benign=True,
+         edits=[(CONSTR, "    def bytes_parsed(self, path, size, anticipate_only=False):\n        \"\"\"Add to the size of parsed bytes.\"\"\"", "    @property\n    def size_remaining(self):\n        return self.size_max - self.size_already\n\n    def bytes_parsed(self, path, size, anticipate_only=False):\n        \"\"\"Add to the size of parsed bytes.\"\"\""),
+                (CONSTR, "                yield from consume_bytes(self.size_max - self.size_already)\n                raise SizeConstraintExceededError(", "                yield from consume_bytes(self.size_remaining)\n                raise SizeConstraintExceededError("),
+                (CONSTR, "        yield WarningEvent(error=error)\n\n        yield from consume_bytes(self.size_max - self.size_already)", "        yield WarningEvent(error=error)\n\n        yield from consume_bytes(self.size_remaining)")]),
+]
+MUTANTS += ROUND2_MUTANTS
+
 # seeded regressions written by independent sub-agents (seeded/<id>/): kept as regression tests of the checkers
 import glob as _glob
 import json as _json
